@@ -36,11 +36,11 @@ TRIAGE = {
     P + "lexer::tokenize|assert:Overflow:Add#5": "line/column counters are bounded by the input length",
     P + "lexer::tokenize|assert:Overflow:Add#6": "line/column counters are bounded by the input length",
     # --- dsl ----------------------------------------------------------------------------------------
-    "<" + D + "common::AddressAssignment as core::convert::TryFrom<&str>>::try_from|call:<regex::regex::string::Captures<'h> as core::ops::index::Index<usize>>::index#1":
+    "<" + D + "common::AddressAssignment as core::convert::TryFrom<&str>>::try_from|call:<regex::regex::string::Captures<'h> as core::ops::index::Index<usize>>::index[1]#1":
         "group 1 of DIRECT_ADDRESS_UNASSIGNED is not optional: it participates in every match",
-    "<" + D + "common::AddressAssignment as core::convert::TryFrom<&str>>::try_from|call:<regex::regex::string::Captures<'h> as core::ops::index::Index<usize>>::index#2":
+    "<" + D + "common::AddressAssignment as core::convert::TryFrom<&str>>::try_from|call:<regex::regex::string::Captures<'h> as core::ops::index::Index<usize>>::index[1]#2":
         "group 1 of DIRECT_ADDRESS is not optional",
-    "<" + D + "common::AddressAssignment as core::convert::TryFrom<&str>>::try_from|call:<regex::regex::string::Captures<'h> as core::ops::index::Index<usize>>::index#4":
+    "<" + D + "common::AddressAssignment as core::convert::TryFrom<&str>>::try_from|call:<regex::regex::string::Captures<'h> as core::ops::index::Index<usize>>::index[3]#1":
         "group 3 of DIRECT_ADDRESS is not optional",
     D + "common::FixedPoint::parse|call:alloc::str::repeat#1": "argument is 15 - len with len <= 15 (guard verified for the subtraction): at most 15 copies of a 1-byte string",
     D + "time::DurationLiteral::days|call:<time::duration::Duration as core::ops::arith::Add>::add#1":
